@@ -14,10 +14,10 @@ import (
 
 // Program is the loaded SSA form of /repo (current working tree) plus harness overlays.
 type Program struct {
-	Prog     *ssa.Program
-	Pkgs     []*ssa.Package
-	Harness  map[string]*ssa.Function // by name
-	Overlay  map[string]string        // virtual path -> real path
+	Prog    *ssa.Program
+	Pkgs    []*ssa.Package
+	Harness map[string]*ssa.Function // by name
+	Overlay map[string]string        // virtual path -> real path
 }
 
 // Load loads /repo with the harness files of harnessDir overlaid (nothing is written into repoDir).
